@@ -32,6 +32,7 @@ CONSTANTS
   SwResetExitElemV,      \* slices.validate clears Exit before each element
   SwValStructArgPtr,     \* struct.validate hands tests/transforms the destination pointer
   SwNestedSourceTag,     \* nested structs resolve keys with the source tag of their front end
+  SwEmptyRecordSourceTag,\* so does a struct whose record is absent or empty (nil, {}, missing)
   SwRunAllTests,         \* the test loop does not stop at the first failure (unless catching)
   SwSoftPT               \* "run": PostTransforms of a skipped/caught node run (as the code does);
                          \* "any": they may or may not run (the properties leave it open)
@@ -181,7 +182,8 @@ StructField(k) ==
   /\ At("struct", "fields")
   /\ k \in Top.todo
   /\ LET f == Top  n == f.node  kid == n.kids[k]
-         key == KeyOf(kid, f.fe, Mode)
+         emptyRec == f.in.t # "map" \/ \A j \in DOMAIN f.in.items : f.in.items[j].val.t = "missing"
+         key == KeyOf(kid, IF ~SwEmptyRecordSourceTag /\ emptyRec THEN "map" ELSE f.fe, Mode)
          cfe == IF SwNestedSourceTag THEN f.fe ELSE "map"
          resetCC == SwResetCanCatchField
          resetEx == IF Mode = "parse" THEN SwResetExitFieldP ELSE SwResetExitFieldV
